@@ -166,13 +166,14 @@ def hook(check, failed, mism):
 
     # --- oracle disagreement
     for s in oracle.get("sources", []):
-        t = {}
+        t, cnt = {}, {}
         for e in tables.get(s["table"], []):
             t.setdefault(e["name"], e["num"])
+            cnt[e["name"]] = cnt.get(e["name"], 0) + 1
         row = arch_of_table.get(s["table"], {"var": s["table"], "name": s["table"]})
         n = 0
         for e in s["entries"]:
-            if e["name"] in t and t[e["name"]] != e["num"]:
+            if e["name"] in t and cnt[e["name"]] == 1 and t[e["name"]] != e["num"]:
                 n += 1
                 if n <= 2:
                     add("oracle:%s:%s" % (row["name"], e["name"]),
